@@ -348,15 +348,23 @@ def consumer(ctx, prog):
                 ctx.violation("CONSUMER", "drop", "ArrayConsumer's Drop must drop exactly array[taken_front .. N-taken_back)", bdy.file())
             ctx.instance("CONSUMER", "drop")
         if bdy.promoted is None and bdy.key.endswith("core::ops::Drop>::drop") and "array_builder::ArrayBuilder" in bdy.key:
-            ps = sym.paths_of(bdy, prog)
-            ok = False
+            ps = [p for p in sym.paths_of(bdy, prog) if p.kind == "return"]
+            ok = bool(ps)
             for p in ps:
+                good = False
                 for e in p.events:
                     if e[0] == "call" and e[1].endswith("drop_in_place"):
                         a = table.strip_gargs(e[2])[3]
-                        ok = _is_range(a, None, ("field", me, 1), me)
+                        # the range itself, or the accessor the BUILDER rule proves to be array[..inited]
+                        good = _is_range(a, None, ("field", me, 1), me) or \
+                            a == ("call", "konst::array::array_builder::ArrayBuilder::as_mut_slice", None, ("p", 1))
+                if not good:
+                    # a path that drops nothing is fine exactly when the element type has no drop glue
+                    good = any(c[0] == "nholds" and c[1][0] == "call" and c[1][1] == "core::mem::needs_drop" and len(c[1]) == 3
+                               for c in (table.norm_atom(c_) for c_ in p.conds))
+                ok = ok and good
             if not ok:
-                ctx.violation("BUILDER-DROP", "drop", "ArrayBuilder's Drop must drop exactly array[0 .. inited)", bdy.file())
+                ctx.violation("BUILDER-DROP", "drop", "ArrayBuilder's Drop must drop exactly array[0 .. inited) on every path (or nothing, when T has no drop glue)", bdy.file())
             ctx.instance("BUILDER-DROP", "drop")
     for nm, want in (("new", (sym.I(0), sym.I(0))), ("empty", (N, sym.I(0)))):
         b = ctx.anchor(prog, AC + nm)
